@@ -235,6 +235,17 @@ func (r *PairRun) applyReset() wx.Result {
 	if panics(func() { w.Resources().Add(r.resID, &pairRes{V: 43}) }) {
 		return r.fail("reset:resource-add", "resource can not be added again after Reset")
 	}
+	// two locks at a time behave as on a fresh world
+	{
+		q1 := w.Query(ecs.All())
+		q2 := w.Query(ecs.All())
+		q2.Close()
+		stillLocked := w.IsLocked()
+		pv := catch(func() { q1.Close() })
+		if !stillLocked || pv != nil || w.IsLocked() {
+			return r.fail("reset:locks", fmt.Sprintf("after Reset nested queries do not hold separate locks (locked after closing the inner one: %t, closing the outer one: %v)", stillLocked, pv))
+		}
+	}
 	q := w.Query(ecs.All())
 	n := q.Count()
 	q.Close()
